@@ -135,7 +135,8 @@ def do_query(doc, q, r):
     if q == 'len':
         return [len(p) for g, p in prims] + [len(doc.geometries), len(doc.nodes)]
     if q == 'inputlist':
-        return [sorted(p.getInputList().getList(), key=str) for g, p in prims]
+        # in the order the list is given: the i-th TEXCOORD input is what texcoordset[i] / texcoord_indexset[i] belong to
+        return [[tuple(x) for x in p.getInputList().getList()] for g, p in prims]
     if q == 'inputlist_use':
         # the documented way to derive a new primitive: take the input list and add to it; the list is the caller's
         out = []
@@ -153,6 +154,10 @@ def do_query(doc, q, r):
                 out.append(type(e).__name__)
         return out
     raise ValueError(q)
+
+
+def ordered_inputs(doc):
+    return [[tuple(x) for x in p.getInputList().getList()] for g in doc.geometries for p in g.primitives]
 
 
 def make_pair(kind, seed):
@@ -177,6 +182,7 @@ def check_history(kind, seed, nq):
         return None
     before = snap.snapshot(doc)
     mbefore = meta(doc)
+    inputs0 = ordered_inputs(doc)
     first = {}
     hist = []
     for i in range(nq):
@@ -194,6 +200,12 @@ def check_history(kind, seed, nq):
         if q in first and first[q] != res:
             return ('not-repeatable:' + q, 'repeating %s gives a different result after %s' % (q, hist))
         first.setdefault(q, res)
+        # the input lists of the primitives, in their order (texcoordset[i] belongs to the i-th TEXCOORD input), after every query
+        if q != 'inputlist_use':
+            now = ordered_inputs(doc)
+            if now != inputs0:
+                k = next(i for i, (a, b) in enumerate(zip(inputs0, now)) if a != b)
+                return ('inputs-reordered:' + q, 'the read-only operation %s changed the input list of primitive %d: %s -> %s (history %s)' % (q, k, inputs0[k], now[k], hist))
     a = copy.deepcopy(before)
     b = snap.snapshot(doc)
     # saving recomputes the node matrices from the transforms: equal up to float32 rounding (snap.diff compares `.matrix[` entries
